@@ -20,7 +20,7 @@ CHECKS = {
     "C01": {
         "bin": "c01",
         "quick": cfgs(["dflt", "cmp", "rdxfmt", "cmprdxfmt"]),
-        "thorough": cfgs(["dflt", "cmp", "rdxfmt", "cmprdxfmt", "p2", "fmt", "nostd_cmp"]),
+        "thorough": cfgs(["dflt", "cmp"], args=["--all32"]) + cfgs(["rdxfmt", "cmprdxfmt", "p2", "fmt", "nostd_cmp"]),
         "rule": "complete enumeration of string families S (all strings over {+,-,0,1,5,9,.,e,E} up to depth L), "
                 "ME (every significand with <= d digits x every decimal exponent in the finite range +-8), MEV (spelling "
                 "variants), CF (continued-fraction near-halfway significands per exponent), HW (exact halfway expansions "
@@ -28,7 +28,7 @@ CHECKS = {
                 "non-trivial = grammatical strings with a non-zero value (rounding, overflow or underflow decided)",
         "bounds": {
             "quick": "S depth 6; ME d=4; MEV d=2; CF 6 per (exponent, range); HW 3 mantissa patterns per binade; f32 and f64; parse and parse_partial",
-            "thorough": "S depth 8; ME d=6; MEV d=3; CF 24 per (exponent, range); HW 8 mantissa patterns per binade; f32 and f64",
+            "thorough": "S depth 8; ME d=6; MEV d=3; CF 24 per (exponent, range); HW 8 mantissa patterns per binade; f32 and f64; ALL32 (default and compact feature sets): every positive finite f32 bit pattern - its shortest decimal and the exact decimal midpoint to its successor (plus perturbed midpoints for every 8th, positional spelling for every 16th)",
         },
         "assumptions": COMMON_ASSUME,
     },
